@@ -4,6 +4,7 @@ package c02
 
 import (
 	"crypto"
+	"reflect"
 	"strings"
 	"testing"
 
@@ -88,6 +89,30 @@ func TestVerifGeneratedKeys(t *testing.T) {
 				}
 				if !s.Verify(pub, msg, sig, nil) {
 					v("honest-rejected", "key", "sk.Public()", "msg", msg, "sig", sig)
+				}
+			}
+			// the caller overwrites every byte slice the keys handed out (Public()
+			// of ed25519 / ed448 IS a byte slice; MarshalBinary, Seed): the key must
+			// keep signing the same way - same bytes for deterministic schemes,
+			// valid under the unchanged public key for all
+			{
+				pkCopy, _ := s.UnmarshalBinaryPublicKey(k.pkb)
+				before := s.Sign(k.sk, msg, nil)
+				nscr := scribbleHandOuts(k.sk) + scribbleHandOuts(k.pk)
+				lib.CountN("genkey:returned-slices-scribbled", nscr)
+				after := s.Sign(k.sk, msg, nil)
+				again := s.Sign(k.sk, msg, nil)
+				det := lib.Eq(after, again)
+				if pkCopy != nil && !s.Verify(pkCopy, msg, after, nil) {
+					v("honest-rejected", "key", "generated, after the caller overwrote the slices the key handed out", "msg", msg, "sig_before", before, "sig_after", after)
+				}
+				if det && !lib.Eq(before, after) && pkCopy != nil && s.Verify(pkCopy, msg, before, nil) {
+					// deterministic scheme (two later calls agree) whose output changed
+					lib.Violation("C02:nondeterministic:"+name+":after-writing-to-returned-slices", mon, lib.D("scheme", name, "sig_before", before, "sig_after", after))
+				}
+				// restore the caller-visible public key object if it was a slice
+				if pk2, err := s.UnmarshalBinaryPublicKey(k.pkb); err == nil {
+					k.pk = pk2
 				}
 			}
 			// crypto.Signer
@@ -189,4 +214,33 @@ func TestVerifGeneratedKeys(t *testing.T) {
 			}
 		}
 	}
+}
+
+// scribbleHandOuts overwrites the byte slices obj returns from its accessor
+// methods; it returns how many it found.
+func scribbleHandOuts(obj any) int {
+	n := 0
+	v := reflect.ValueOf(obj)
+	for _, name := range []string{"MarshalBinary", "Seed", "Bytes", "Public"} {
+		m := v.MethodByName(name)
+		if !m.IsValid() || m.Type().NumIn() != 0 || m.Type().NumOut() == 0 {
+			continue
+		}
+		var outs []reflect.Value
+		if pn := lib.Try("scribble:"+name, nil, func() { outs = m.Call(nil) }); pn != nil {
+			continue
+		}
+		o := outs[0]
+		if o.Kind() == reflect.Interface {
+			o = o.Elem()
+		}
+		if !o.IsValid() || o.Kind() != reflect.Slice || o.Type().Elem().Kind() != reflect.Uint8 || o.Len() == 0 {
+			continue
+		}
+		for i := 0; i < o.Len(); i++ {
+			o.Index(i).SetUint(uint64(0xEE ^ byte(i)))
+		}
+		n++
+	}
+	return n
 }
